@@ -181,7 +181,19 @@ func (e *Executor) Execute() {
 			// blockage.
 			//
 			for _, rootNode := range e.rootNodes {
-				rootNode.Ch <- sourceEvent
+				select {
+				case rootNode.Ch <- sourceEvent:
+					// event was put on the root node's channel successfully
+				default:
+					// root node's channel was full; same policy as delivery to any other node
+					if rootNode.Config.DiscardOnFullBuffer {
+						metrics.Node().DiscardedEvents.WithLabelValues(rootNode.Config.ID).Inc()
+					} else {
+						// may block if ch still full, creating backpressure towards the source
+						metrics.Node().BufferFullEvents.WithLabelValues(rootNode.Config.ID).Inc()
+						rootNode.Ch <- sourceEvent
+					}
+				}
 				metrics.Node().BufferedEvents.WithLabelValues(rootNode.Config.ID).Set(float64(len(rootNode.Ch)))
 			}
 		}
